@@ -3,8 +3,28 @@
    abstract token kind (the two packages number their tokens differently). *)
 From Coq Require Import List NArith ZArith Bool.
 Import ListNotations.
-From V Require Import Base.Prelude Gen.ScanTok Model.Scan Model.ScanRel Proofs.ScanTpl.
+From V Require Import Base.Prelude Gen.ScanTok Model.Scan Model.ScanRel Proofs.ScanTpl Proofs.ScanTplEq.
 Open Scope Z_scope.
+
+(* tpl_eq_xgo_on_shared.  [shared ul ud cm src] (Model/ScanRel.v) runs the XGo dialect and checks
+   before every step that it takes no branch tpl/scanner lacks or does differently: no keyword,
+   no c"/py" string, no '~' '@' '**', no blank directly after a number's unit, and on every comment
+   the two scanComment variants return the same state and literal (sharp_agree / comment_agree).
+   Then the two dialects return the same result: the same tokens (kind, offset, literal, extent,
+   inserted semicolons) and the same errors. *)
+Theorem C32_tpl_eq_xgo_on_shared : forall ul ud cm src,
+  shared ul ud cm src = true -> run ul ud Tpl cm src = run ul ud XGo cm src.
+Proof. exact run_tpl_xgo. Qed.
+Corollary C32_tpl_eq_xgo_streams : forall ul ud cm src,
+  shared ul ud cm src = true -> astream ul ud Tpl cm src = astream ul ud XGo cm src.
+Proof. intros ul ud cm src H. unfold astream. rewrite (run_tpl_xgo ul ud cm src H). reflexivity. Qed.
+(* one step from the same state: the kernel of the theorem *)
+Theorem C32_step_tpl_eq_xgo : forall ul ud cm st,
+  xt_plain ul ud st = true -> step ul ud Tpl cm st = step ul ud XGo cm st.
+Proof. exact step_tpl_xgo. Qed.
+(* equal token kind = equal spelling / class name in both packages' `tokens` arrays *)
+Theorem C32_spellings_agree : forall t, code Tpl t <> -1 -> code XGo t <> -1 -> spell_of Tpl t = spell_of XGo t.
+Proof. exact spell_tpl_xgo. Qed.
 
 (* the shared lexemes on which the two scanners differ, with both streams *)
 Theorem C32_tpl_xgo_diverge_unit : forall ul ud,
@@ -27,12 +47,20 @@ Theorem C32_tpl_xgo_diverge_block_cr : forall ul ud,
   /\ astream ul ud Tpl true w_block_cr = Some [(T_COMMENT, 0, [47; 42; 120; 42; 47; 42; 47]%N); (T_EOF, 8, [])].
 Proof. exact block_cr_streams. Qed.
 
-(* non-vacuity of agreement: units, rationals, '#' and '//' comments, XGo operators, inserted semicolons *)
-Example C32_agree_example : forall ul ud,
-  let src := [35;99;10;120;32;61;62;32;51;109;43;49;46;53;114;32;47;47;100;10;102;40;36;97;41;63;10]%N in
-  astream ul ud Tpl true src = astream ul ud XGo true src /\ astream ul ud Tpl false src = astream ul ud XGo false src.
-Proof. intros ul ud src. split; vm_compute; reflexivity. Qed.
+(* non-vacuity: a source with units, a rational, '#' '//' and block comments, XGo operators and
+   inserted semicolons is shared (both comment modes), hence scanned identically *)
+Definition ex_shared : str :=
+  [35;99;10;120;32;61;62;32;51;109;43;49;46;53;114;32;47;47;100;10;102;40;36;97;41;63;10;47;42;10;42;47;32;121;46;46;46;10]%N.
+Example C32_shared_example : forall ul ud, shared ul ud true ex_shared = true /\ shared ul ud false ex_shared = true.
+Proof. intros ul ud. split; vm_compute; reflexivity. Qed.
+Example C32_not_shared_examples : forall ul ud,
+  shared ul ud true w_unit_space = false /\ shared ul ud true w_sharp_cr = false
+  /\ shared ul ud true w_sharp_star = false /\ shared ul ud true w_block_cr = false.
+Proof. intros ul ud. repeat split; vm_compute; reflexivity. Qed.
 
+Print Assumptions C32_tpl_eq_xgo_on_shared.
+Print Assumptions C32_step_tpl_eq_xgo.
+Print Assumptions C32_spellings_agree.
 Print Assumptions C32_tpl_xgo_diverge_unit.
 Print Assumptions C32_tpl_xgo_diverge_sharp_cr.
 Print Assumptions C32_tpl_xgo_diverge_sharp_star.
